@@ -26,9 +26,9 @@ impl Check for C14 {
     }
     fn n_runs(&self, thorough: bool) -> u64 {
         if thorough {
-            200_000
+            430_000
         } else {
-            6_000
+            10_000
         }
     }
     fn gen_plan(&self, seed: u64, idx: u64, _t: bool) -> Value {
